@@ -3,6 +3,7 @@ package rules
 import (
 	"fmt"
 	"go/ast"
+	"go/constant"
 	"go/types"
 	"sort"
 	"strings"
@@ -1393,4 +1394,319 @@ func init() {
 				x.C.Vacuous(x.id()+" deep fields", n, 10)
 			}
 		}})
+}
+
+func init() {
+	register(&Rule{ID: "Z.snap", Min: 10, Text: "stored snapshot bytes: (codec) CompressSnapshot writes the constant SnapshotFormatZstd at index 0 and the compressed payload from index 1; DecompressSnapshot returns its input unchanged on the edge data[0] != the same constant and otherwise decodes data[1:]; (pairing, both backends) in CreateSnapshotInfo everything stored into SnapshotInfo.Snapshot / SnapshotBodyInfo.Snapshot is the result of CompressSnapshot (or nil when the body is external), the HasExternalBody flag stored is the very condition under which the body row is inserted, and every backend method that returns a *SnapshotInfo and loads Snapshot bytes from a stored row also stores the result of DecompressSnapshot of that field back into it, after fetching the external body on the HasExternalBody edge",
+		Run: func(x *Ctx) {
+			comp := x.fn(dbPkg + ".CompressSnapshot")
+			decomp := x.fn(dbPkg + ".DecompressSnapshot")
+			hdr, okH := x.constInt(dbPkg + ".SnapshotFormatZstd")
+			snapF := x.P.Field(dbPkg + ".SnapshotInfo.Snapshot")
+			bodyF := x.P.Field(dbPkg + ".SnapshotBodyInfo.Snapshot")
+			extF := x.P.Field(dbPkg + ".SnapshotInfo.HasExternalBody")
+			if comp == nil || decomp == nil || !okH || snapF == nil || bodyF == nil || extF == nil {
+				x.C.Unresolved(x.id(), "CompressSnapshot / DecompressSnapshot / SnapshotFormatZstd / SnapshotInfo.Snapshot")
+				return
+			}
+			n := 0
+			// --- codec
+			{
+				k := "func=" + prog.FnName(comp)
+				okHdr, okPayload := false, false
+				for _, b := range comp.Blocks {
+					for _, ins := range b.Instrs {
+						switch t := ins.(type) {
+						case *ssa.Store:
+							if ia, ok := t.Addr.(*ssa.IndexAddr); ok {
+								if i, isI := prog.IntConst(ia.Index); isI && i == 0 {
+									if v, isV := prog.IntConst(t.Val); isV && v == hdr {
+										okHdr = true
+									}
+								}
+							}
+						case *ssa.Call:
+							if bi, ok := t.Call.Value.(*ssa.Builtin); ok && bi.Name() == "copy" {
+								if sl, isS := prog.Strip(t.Call.Args[0]).(*ssa.Slice); isS && sl.Low != nil {
+									if lo, isL := prog.IntConst(sl.Low); isL && lo == 1 {
+										okPayload = true
+									}
+								}
+							}
+						}
+					}
+				}
+				n += 2
+				x.check(okHdr, k+" header=SnapshotFormatZstd@0", x.fpos(comp), "the format byte is written at index 0", "CompressSnapshot no longer writes SnapshotFormatZstd at index 0")
+				x.check(okPayload, k+" payload-from-index-1", x.fpos(comp), "the payload is copied from index 1", "the compressed payload is not copied to result[1:]: it overlaps the header byte")
+			}
+			{
+				k := "func=" + prog.FnName(decomp)
+				first := VP{"data[0]", func(v ssa.Value) bool {
+					u, ok := prog.Strip(v).(*ssa.UnOp)
+					if !ok {
+						return false
+					}
+					ia, ok := u.X.(*ssa.IndexAddr)
+					if !ok {
+						return false
+					}
+					i, isI := prog.IntConst(ia.Index)
+					return isI && i == 0 && prog.Reaches(ia.X, func(w ssa.Value) bool { return w == ssa.Value(decomp.Params[0]) })
+				}}
+				var dec ssa.CallInstruction
+				for _, c := range prog.CallsIn(decomp) {
+					if o := prog.CallObj(c); o != nil && o.Name() == "DecodeAll" {
+						dec = c
+					}
+				}
+				n += 3
+				if dec == nil {
+					x.fail(k+" decodes", x.fpos(decomp), "DecompressSnapshot no longer decodes")
+				} else {
+					x.guardedSite(k+" decode-only-if-data[0]==SnapshotFormatZstd", dec, []Cmp{{L: first, R: vpConst(hdr), Want: EQ}}, nil)
+					okTail := false
+					for _, a := range dec.Common().Args {
+						if sl, isS := prog.Strip(a).(*ssa.Slice); isS && sl.Low != nil {
+							if lo, isL := prog.IntConst(sl.Low); isL && lo == 1 && prog.Reaches(sl.X, func(w ssa.Value) bool { return w == ssa.Value(decomp.Params[0]) }) {
+								okTail = true
+							}
+						}
+					}
+					x.check(okTail, k+" decodes-data[1:]", x.pos(dec), "the header byte is stripped before decoding", "the decoder is not handed data[1:]")
+					// the raw return: input unchanged
+					okRaw, nRaw := true, 0
+					for _, r := range prog.Returns(decomp) {
+						if !prog.ReturnsNilError(r) || prog.MayPrecede(dec, r) {
+							continue
+						}
+						nRaw++
+						if !prog.Reaches(prog.ReturnValue(r, 0), func(w ssa.Value) bool { return w == ssa.Value(decomp.Params[0]) }) {
+							okRaw = false
+						}
+					}
+					okRaw = okRaw && nRaw > 0
+					x.check(okRaw, k+" other-formats-returned-unchanged", x.fpos(decomp), "bytes without the header are returned as they are", "bytes that do not start with the format byte are no longer returned unchanged (stored uncompressed snapshots become unreadable)")
+				}
+			}
+			// --- pairing in the backends
+			dbI := x.P.Named(dbPkg + ".Database")
+			if dbI == nil {
+				x.C.Unresolved(x.id(), dbPkg+".Database")
+				return
+			}
+			compObj, decompObj := comp.Object().(*types.Func), decomp.Object().(*types.Func)
+			fromCall := func(obj *types.Func) func(ssa.Value) bool {
+				return func(w ssa.Value) bool {
+					c, ok := prog.Strip(w).(*ssa.Call)
+					if ok && sameFunc(prog.CallObj(c), obj) {
+						return true
+					}
+					if e, isE := prog.Strip(w).(*ssa.Extract); isE {
+						if c2, ok2 := e.Tuple.(*ssa.Call); ok2 && sameFunc(prog.CallObj(c2), obj) {
+							return true
+						}
+					}
+					return false
+				}
+			}
+			for _, t := range x.P.Implementers(dbI) {
+				back := t.Obj().Pkg().Name() + "." + t.Obj().Name()
+				if w := x.P.MethodOf(t, "CreateSnapshotInfo"); w != nil {
+					k := "backend=" + back + " func=CreateSnapshotInfo"
+					i := 0
+					for _, f := range []*types.Var{snapF, bodyF} {
+						for _, st := range storesTo(w, f) {
+							i++
+							n++
+							ok := true
+							// every value that can arrive (through phis) is nil or the compressed bytes
+							var visit func(v ssa.Value, d int)
+							seen := map[ssa.Value]bool{}
+							visit = func(v ssa.Value, d int) {
+								v = prog.Strip(v)
+								if seen[v] || d > 6 {
+									return
+								}
+								seen[v] = true
+								if ph, isPhi := v.(*ssa.Phi); isPhi {
+									for _, e := range ph.Edges {
+										visit(e, d+1)
+									}
+									return
+								}
+								if prog.IsNilConst(v) {
+									return
+								}
+								if !prog.Reaches(v, fromCall(compObj)) {
+									ok = false
+								}
+							}
+							visit(st.Val, 0)
+							x.check(ok, fmt.Sprintf("%s stored-bytes#%d=CompressSnapshot(…)", k, i), x.pos(st), "what is stored went through CompressSnapshot", "snapshot bytes are stored without going through CompressSnapshot (or something else is stored)")
+						}
+					}
+					// the encoded snapshot has exactly one consumer: CompressSnapshot (it is never stored raw) —
+					// this is the form that also covers a backend that writes through a bson map
+					s2b := x.P.FnObj(convPkg + ".SnapshotToBytes")
+					for _, c := range callsToIn(w, s2b) {
+						n++
+						only := true
+						uses := 0
+						var visit func(v ssa.Value, d int)
+						visit = func(v ssa.Value, d int) {
+							if d > 4 || v.Referrers() == nil {
+								return
+							}
+							for _, ref := range *v.Referrers() {
+								switch t := ref.(type) {
+								case *ssa.DebugRef:
+								case *ssa.Extract:
+									if t.Index == 0 {
+										visit(t, d+1)
+									}
+								case ssa.CallInstruction:
+									uses++
+									if !sameFunc(prog.CallObj(t), compObj) {
+										only = false
+									}
+								default:
+									uses++
+									only = false
+								}
+							}
+						}
+						visit(c.Value(), 0)
+						x.check(only && uses > 0, k+" encoded-snapshot-only-feeds-CompressSnapshot", x.pos(c), "the encoded snapshot is used only as the argument of CompressSnapshot", "the encoded snapshot is used for something other than CompressSnapshot (stored raw, or not stored at all)")
+					}
+					// bson-map form of the stores
+					for _, b := range w.Blocks {
+						for _, ins := range b.Instrs {
+							mu, ok := ins.(*ssa.MapUpdate)
+							if !ok {
+								continue
+							}
+							key, isStr := constString(mu.Key)
+							if !isStr {
+								continue
+							}
+							switch key {
+							case "snapshot":
+								i++
+								n++
+								x.check(prog.Reaches(mu.Value, fromCall(compObj)), fmt.Sprintf("%s stored-bytes#%d=CompressSnapshot(…)", k, i), x.pos(mu), "what is stored went through CompressSnapshot", "snapshot bytes are stored without going through CompressSnapshot")
+								// inline bytes are written exactly when the body is not external
+								flagCond := ssa.Value(nil)
+								for _, b2 := range w.Blocks {
+									for _, ins2 := range b2.Instrs {
+										if mu2, ok2 := ins2.(*ssa.MapUpdate); ok2 {
+											if k2, is2 := constString(mu2.Key); is2 && k2 == "has_external_body" {
+												flagCond = prog.Strip(mu2.Value)
+												if mi, isMI := flagCond.(*ssa.MakeInterface); isMI {
+													flagCond = prog.Strip(mi.X)
+												}
+											}
+										}
+									}
+								}
+								okFlag := false
+								for _, ifi := range x.P.ControlDeps(mu.Block()) {
+									if flagCond != nil && prog.Strip(ifi.Cond) == flagCond {
+										okFlag = true
+									}
+								}
+								n++
+								x.check(okFlag, k+" HasExternalBody=condition-of-body-insert", x.pos(mu), "the stored flag is the condition that decides between inline bytes and the body row", "the has_external_body flag stored is not the condition that decides where the bytes go")
+							}
+						}
+					}
+					if i == 0 {
+						x.fail(k+" stores-bytes", x.fpos(w), "CreateSnapshotInfo no longer stores snapshot bytes")
+					}
+					// HasExternalBody: the stored flag is the condition of the body insert
+					for _, st := range storesTo(w, extF) {
+						n++
+						cond := prog.Strip(st.Val)
+						okFlag := false
+						for _, st2 := range storesTo(w, bodyF) {
+							for _, ifi := range x.P.ControlDeps(st2.Block()) {
+								if prog.Strip(ifi.Cond) == cond {
+									okFlag = true
+								}
+							}
+						}
+						x.check(okFlag, k+" HasExternalBody=condition-of-body-insert", x.pos(st), "the flag stored is the condition under which the body row is written", "the HasExternalBody flag stored in the row is not the condition under which the external body row is inserted: a reader looks for a body that does not exist, or ignores one that does")
+					}
+				}
+				// readers
+				for _, name := range []string{"FindSnapshotInfo", "FindSnapshotInfoByRefKey", "FindClosestSnapshotInfo", "FindSnapshotInfos", "FindSnapshotInfoByID"} {
+					r := x.P.MethodOf(t, name)
+					if r == nil {
+						continue
+					}
+					closure := append([]*ssa.Function{r}, prog.Closures(r)...)
+					loads := false
+					for _, g := range closure {
+						for _, b := range g.Blocks {
+							for _, ins := range b.Instrs {
+								if v, ok := ins.(ssa.Value); ok && prog.LoadedField(v) == snapF {
+									loads = true
+								}
+							}
+						}
+					}
+					if !loads {
+						continue
+					}
+					n++
+					k := "backend=" + back + " func=" + name
+					ok := false
+					for _, g := range closure {
+						for _, st := range storesTo(g, snapF) {
+							if prog.Reaches(st.Val, fromCall(decompObj)) {
+								// … of that very field
+								for _, c := range callsToIn(g, decompObj) {
+									if prog.LoadedField(paramArg(c, 0)) == snapF {
+										ok = true
+									}
+								}
+							}
+						}
+					}
+					x.check(ok, k+" returns-decompressed", x.fpos(r), "the Snapshot field handed out is DecompressSnapshot of the stored field", "a reader hands out stored snapshot bytes without DecompressSnapshot: BytesToSnapshot fails on the format byte (or silently decodes garbage)")
+					// the external body is fetched on the HasExternalBody edge before decompression
+					for _, g := range closure {
+						for _, c := range callsToIn(g, decompObj) {
+							fetched := false
+							for _, st := range storesTo(g, snapF) {
+								if prog.MayPrecede(st, c) && !prog.Reaches(st.Val, fromCall(decompObj)) {
+									for _, ifi := range x.P.ControlDeps(st.Block()) {
+										if prog.LoadedField(ifi.Cond) == extF {
+											fetched = true
+										}
+									}
+								}
+							}
+							n++
+							x.check(fetched, k+" external-body-fetched-when-flagged", x.pos(c), "on the HasExternalBody edge the body is loaded into the field first", "a row whose body is stored externally is decompressed without fetching the body first: the reader gets an empty snapshot")
+						}
+					}
+				}
+			}
+			if n < 10 {
+				x.C.Vacuous(x.id()+" sites", n, 10)
+			}
+		}})
+}
+
+// constString: v is a string constant (possibly boxed into an interface).
+func constString(v ssa.Value) (string, bool) {
+	if mi, ok := v.(*ssa.MakeInterface); ok {
+		v = mi.X
+	}
+	c, ok := v.(*ssa.Const)
+	if !ok || c.Value == nil || c.Value.Kind() != constant.String {
+		return "", false
+	}
+	return constant.StringVal(c.Value), true
 }
